@@ -68,7 +68,16 @@ impl Engine for CorrEngine {
         }
         let mut knobs = BTreeMap::new();
         // 0: damaged valid image, 1: random bytes, 2: invalid size
-        knobs.insert("kind".into(), *c.pick(&[0i64, 0, 0, 0, 0, 1, 2]));
+        let mut kind = *c.pick(&[0i64, 0, 0, 0, 0, 1, 2]);
+        // own tape: a device larger than any window the store might look at first (1 MiB scan
+        // window), empty at its start and foreign further on
+        let mut zt = Tape::fresh(mix(seed, 0x2E80));
+        let mut store = store;
+        if zt.chance(1, 12) {
+            kind = 3;
+            store.data_blocks = 300 + zt.below(400) as u64;
+        }
+        knobs.insert("kind".into(), kind);
         knobs.insert("crash_source".into(), c.chance(1, 3) as i64);
         knobs.insert("edits".into(), 1 + c.below(if tier == "thorough" { 6 } else { 3 }) as i64);
         let _ = property;
@@ -104,6 +113,21 @@ impl Engine for CorrEngine {
                     img[..8 * BLOCK].copy_from_slice(&e[..8 * BLOCK]);
                 }
                 (img, vec!["random bytes".into()])
+            }
+            3 => {
+                // zero head, foreign bytes somewhere behind the first MiB (sometimes also a little
+                // before it): not an empty device, not a FeOx device
+                let mut img = vec![0u8; size];
+                let total_blocks = size / BLOCK;
+                let first_foreign = if t.chance(3, 4) { 257 + t.below((total_blocks - 258) as u32) as usize } else { 17 + t.below(200) as usize };
+                let mut st = sc.seed ^ 0x5EED;
+                for b in [first_foreign, total_blocks - 1 - t.below(8) as usize] {
+                    for chunk in img[b * BLOCK..(b + 1) * BLOCK].chunks_mut(8) {
+                        let w = crate::tape::splitmix64(&mut st).to_le_bytes();
+                        chunk.copy_from_slice(&w[..chunk.len()]);
+                    }
+                }
+                (img, vec![format!("zero-head foreign block {first_foreign} of {total_blocks}")])
             }
             2 => {
                 let bad = *t.pick(&[1usize, 4095, 4096, 16 * BLOCK, 16 * BLOCK + 1, 17 * BLOCK - 512, size + 100]);
